@@ -184,6 +184,7 @@ type lpCase struct {
 	reasm    bool
 	ccf      bool
 	lcp      bool
+	rx       string // how frames reach the receiver: "direct" (one datagram buffer, overwritten after every call) or "stream" (real readTlvStream)
 	ops      []*lpOp
 	// ops generated lazily after sends: a function that produces RECV ops from the frames captured so far
 	after func(c *lpCase, r *rand.Rand) []*lpOp
@@ -251,7 +252,10 @@ func senderOptions(item string, step int) face.NDNLPLinkServiceOptions {
 func runLpCase(w *bufio.Writer, c *lpCase, r *rand.Rand) {
 	lpSetup()
 	setThreads(c.nthreads)
-	fmt.Fprintf(w, "LPCASE %s %s nthreads=%d local=%s reasm=%s ccf=%s lcp=%s\n", c.id, c.kind, c.nthreads, b01(c.local), b01(c.reasm), b01(c.ccf), b01(c.lcp))
+	if c.rx == "" {
+		c.rx = []string{"direct", "direct", "stream"}[r.Intn(3)]
+	}
+	fmt.Fprintf(w, "LPCASE %s %s nthreads=%d local=%s reasm=%s ccf=%s lcp=%s rx=%s\n", c.id, c.kind, c.nthreads, b01(c.local), b01(c.reasm), b01(c.ccf), b01(c.lcp), c.rx)
 	scope := defn.NonLocal
 	if c.local {
 		scope = defn.Local
@@ -264,6 +268,7 @@ func runLpCase(w *bufio.Writer, c *lpCase, r *rand.Rand) {
 	rcv := face.VerifMakeLinkService(rt, ropts, 77)
 
 	ops := c.ops
+	var held []recvRec
 	for k := 0; k < len(ops); k++ {
 		o := ops[k]
 		switch o.kind {
@@ -318,33 +323,35 @@ func runLpCase(w *bufio.Writer, c *lpCase, r *rand.Rand) {
 			}
 			o.frames = st.Frames
 		case "RECV":
-			fmt.Fprintf(w, "RECV %s\n", hx(o.frame))
-			fmt.Fprintf(w, "DEC %s\n", decodeStr(o.frame))
+			// the maximal run of consecutive RECV ops is delivered the way the transports do it: through ONE receive buffer
+			j := k
+			var frames [][]byte
+			for j < len(ops) && ops[j].kind == "RECV" {
+				frames = append(frames, ops[j].frame)
+				j++
+			}
+			for _, f := range frames {
+				fmt.Fprintf(w, "PRE %s\n", hx(f)) // input on disk before the calls (a hard crash still leaves it)
+			}
 			w.Flush()
-			dlog = dlog[:0]
-			panicked := false
-			var m0, m1 runtime.MemStats
-			runtime.ReadMemStats(&m0)
-			func() {
-				defer func() {
-					if p := recover(); p != nil {
-						panicked = true
-					}
-				}()
-				face.VerifHandleIncomingFrame(rcv, o.frame)
-			}()
-			runtime.ReadMemStats(&m1)
-			fmt.Fprintf(w, "AL %d\n", m1.TotalAlloc-m0.TotalAlloc)
-			for _, d := range dlog {
-				fmt.Fprintf(w, "DL %d %s %s %s %s %s %s\n", d.thread, d.kind, hx(d.pkt.Raw), hx(d.pkt.PitToken), optU(d.pkt.CongestionMark),
-					optU(d.pkt.NextHopFaceID), optU(d.pkt.CachePolicy))
+			recs := recvBatch(rcv, frames, c.rx == "stream", r)
+			held = append(held, recs...)
+			for _, rec := range recs {
+				fmt.Fprintf(w, "RECV %s\nDEC %s\nAL %d\n", hx(rec.frame), rec.dec, rec.al)
+				// formatted now, i.e. after the receive buffer has been reused for every later frame of the run
+				for _, d := range rec.dl {
+					fmt.Fprintf(w, "DL %d %s %s %s %s %s %s\n", d.thread, d.kind, hx(d.pkt.Raw), hx(d.pkt.PitToken), optU(d.pkt.CongestionMark),
+						optU(d.pkt.NextHopFaceID), optU(d.pkt.CachePolicy))
+				}
+				if rec.panicked {
+					fmt.Fprintf(w, "RP\n")
+					writeHeld(w, held)
+					fmt.Fprintf(w, "END\n")
+					return
+				}
+				fmt.Fprintf(w, "ST %s\n", rec.st)
 			}
-			if panicked {
-				fmt.Fprintf(w, "RP\nEND\n")
-				return
-			}
-			cn := face.VerifCounters(rcv)
-			fmt.Fprintf(w, "ST %d %d %s\n", cn[0], cn[1], storeStr(rcv))
+			k = j - 1
 		}
 		if k == len(ops)-1 && c.after != nil {
 			more := c.after(c, r)
@@ -355,7 +362,156 @@ func runLpCase(w *bufio.Writer, c *lpCase, r *rand.Rand) {
 			ops = append(ops, more...)
 		}
 	}
+	writeHeld(w, held)
 	fmt.Fprintf(w, "END\n")
+}
+
+// recvRec is what one handleIncomingFrame call did; the delivered packets are HELD (pointers), as the forwarding threads hold them.
+type recvRec struct {
+	frame    []byte
+	dec      string
+	al       uint64
+	dl       []delivered
+	snap     [][]byte // copy of each delivered packet's bytes taken inside the call's aftermath, before the buffer is reused
+	names    []string // name of each delivered packet, from the snapshot
+	st       string
+	panicked bool
+}
+
+func l3Name(raw []byte) string {
+	p, _, err := spec.ReadPacket(enc.NewBufferReader(append([]byte{}, raw...)))
+	if err != nil {
+		return "?"
+	}
+	if p.Interest != nil {
+		return p.Interest.NameV.String()
+	}
+	if p.Data != nil {
+		return p.Data.NameV.String()
+	}
+	return "?"
+}
+
+// wellFormedBlock: a minimal-form TLV of 2..MaxNDNPacketSize bytes that is exactly the slice (what readTlvStream frames as one block)
+func wellFormedBlock(f []byte) bool {
+	if len(f) < 2 || len(f) > defn.MaxNDNPacketSize {
+		return false
+	}
+	rd := enc.NewBufferReader(f)
+	t, err := enc.ReadTLNum(rd)
+	if err != nil {
+		return false
+	}
+	l, err := enc.ReadTLNum(rd)
+	if err != nil || uint64(l) > defn.MaxNDNPacketSize {
+		return false
+	}
+	return rd.Pos() == t.EncodingLength()+l.EncodingLength() && rd.Pos()+int(l) == len(f)
+}
+
+// recvBatch feeds the frames to the link service through ONE reused receive buffer:
+//
+//	stream mode (all frames well-formed blocks): the real readTlvStream with a scripted reader, one or two frames per Read, so
+//	              that every Read overwrites the bytes of the frames before it (as on a TCP / Unix / UDP face);
+//	otherwise  : a single datagram buffer, overwritten as soon as handleIncomingFrame has returned.
+func recvBatch(rcv *face.NDNLPLinkService, frames [][]byte, viaStream bool, r *rand.Rand) []recvRec {
+	var recs []recvRec
+	one := func(buf []byte, orig []byte) (rec recvRec) {
+		rec.frame = orig
+		rec.dec = decodeStr(orig)
+		dlog = dlog[:0]
+		var m0, m1 runtime.MemStats
+		runtime.ReadMemStats(&m0)
+		func() {
+			defer func() {
+				if p := recover(); p != nil {
+					rec.panicked = true
+				}
+			}()
+			face.VerifHandleIncomingFrame(rcv, buf)
+		}()
+		runtime.ReadMemStats(&m1)
+		rec.al = m1.TotalAlloc - m0.TotalAlloc
+		rec.dl = append([]delivered{}, dlog...)
+		for _, d := range rec.dl {
+			c := append([]byte{}, d.pkt.Raw...)
+			rec.snap = append(rec.snap, c)
+			rec.names = append(rec.names, l3Name(c))
+		}
+		cn := face.VerifCounters(rcv)
+		rec.st = fmt.Sprintf("%d %d %s", cn[0], cn[1], storeStr(rcv))
+		return rec
+	}
+	if viaStream {
+		ok := len(frames) > 0
+		for _, f := range frames {
+			ok = ok && wellFormedBlock(f)
+		}
+		if ok {
+			var stream []byte
+			var sched []schedItem
+			for i := 0; i < len(frames); i++ {
+				n := len(frames[i])
+				stream = append(stream, frames[i]...)
+				if i+1 < len(frames) && r.Intn(4) == 0 { // two frames in one Read
+					i++
+					n += len(frames[i])
+					stream = append(stream, frames[i]...)
+				}
+				sched = append(sched, schedItem{k: n, n: 1})
+			}
+			rd := &scriptedReader{data: stream, sched: sched}
+			idx := 0
+			func() {
+				defer func() { recover() }()
+				face.VerifReadTlvStream(rd, func(b []byte) {
+					if idx >= len(frames) {
+						return
+					}
+					rec := one(b, frames[idx])
+					idx++
+					recs = append(recs, rec)
+					if rec.panicked {
+						panic("stop")
+					}
+				}, nil)
+			}()
+			return recs
+		}
+	}
+	rxbuf := make([]byte, defn.MaxNDNPacketSize+64)
+	for _, f := range frames {
+		if len(f) > len(rxbuf) {
+			rxbuf = make([]byte, len(f))
+		}
+		n := copy(rxbuf, f)
+		rec := one(rxbuf[:n], f)
+		for i := range rxbuf { // the next datagram arrives
+			rxbuf[i] = 0xa5
+		}
+		recs = append(recs, rec)
+		if rec.panicked {
+			break
+		}
+	}
+	return recs
+}
+
+// writeHeld: at the end of the history, what the forwarding threads hold must still be what was delivered.
+func writeHeld(w *bufio.Writer, held []recvRec) {
+	rawChanged, nameChanged, n := 0, 0, 0
+	for _, rec := range held {
+		for i, d := range rec.dl {
+			n++
+			if string(d.pkt.Raw) != string(rec.snap[i]) {
+				rawChanged++
+			}
+			if d.pkt.Name != nil && d.pkt.Name.String() != rec.names[i] {
+				nameChanged++
+			}
+		}
+	}
+	fmt.Fprintf(w, "HC %d %d %d\n", n, rawChanged, nameChanged)
 }
 
 // ------------------------------------------------------------------------------------------------ packets
@@ -1140,7 +1296,7 @@ func readLpCases(path string) ([]*lpCase, error) {
 		case "LPCASE":
 			kv := parseKV(fs[3:])
 			n, _ := strconv.Atoi(kv["nthreads"])
-			cur = &lpCase{id: fs[1], kind: fs[2], nthreads: n, local: kv["local"] == "1", reasm: kv["reasm"] == "1", ccf: kv["ccf"] == "1", lcp: kv["lcp"] == "1"}
+			cur = &lpCase{id: fs[1], kind: fs[2], nthreads: n, local: kv["local"] == "1", reasm: kv["reasm"] == "1", ccf: kv["ccf"] == "1", lcp: kv["lcp"] == "1", rx: kv["rx"]}
 			res = append(res, cur)
 		case "SEND", "SENDZ":
 			kv := parseKV(fs[1:])
